@@ -12,7 +12,7 @@ int main() {
   TimeLine *tl = nullptr;
   std::string line;
   uint64_t lineno = 0;
-  double endt = 0., maxphys = 0.;
+  double endt = 0., startt = 0., interval = 0., maxphys = 0., sum_actual = 0., last_current = 0.;
   bool finished = false, stopped = false;
   while (std::getline(std::cin, line)) {
     ++lineno;
@@ -25,6 +25,10 @@ int main() {
       delete tl;
       tl = new TimeLine(dbl(w[1]), dbl(w[2]), dbl(w[3]), dbl(w[4]));
       endt = dbl(w[2]);
+      startt = dbl(w[1]);
+      interval = endt - startt;
+      sum_actual = 0.;
+      last_current = startt;
       finished = false;
       stopped = false;
       maxphys = tl->to_physical_time_interval(tl->_maximum_timestep);
@@ -57,6 +61,16 @@ int main() {
         if (ret != (after < END)) bad << " wrong-continue-flag";
         if (actual != tl->to_physical_time_interval(step)) bad << " reported-step-mismatch";
         if (finished) bad << " stepped-after-end";
+        // physical reading of the same clauses (start != 0 included)
+        sum_actual += actual;
+        if (actual > 0.) {
+          int e = 0;
+          const double m = std::frexp(interval / actual, &e);
+          if (m != 0.5) bad << " step-not-a-power-of-two-fraction-of-the-interval";
+        }
+        if (current > endt + 4.e-16 * (std::fabs(endt) + std::fabs(startt))) bad << " time-exceeds-end-time";
+        if (!(current >= last_current)) bad << " time-not-increasing";
+        last_current = current;
       } else {
         if (ret) bad << " continue-without-step";
         // a refusal is only allowed for a request below the configured minimum step (the clock
@@ -66,6 +80,10 @@ int main() {
       }
       if (after == END) {
         finished = true;
+        if (std::fabs(current - endt) > 4.e-16 * (std::fabs(endt) + std::fabs(startt)))
+          bad << " final-step-misses-end-time";
+        if (std::fabs(sum_actual - interval) > 1.e-12 * std::fabs(interval))
+          bad << " steps-do-not-sum-to-the-interval";
         // reported end time within 1 ulp of the configured end
         if (std::fabs(current - endt) > 4.e-16 * std::fabs(endt) + 0.) {
           // only informational unless start = 0 (then it must be exact)
